@@ -79,7 +79,7 @@ Proof.
     intros m y Hy Hk. rewrite <- (Hnc m y Hy).
     pose proof (Hpr m y Hy) as Hp. unfold req_progress in Hp.
     unfold is_apply_kind, is_map in Hk. unfold expected_created.
-    destruct (m_kind y); try discriminate; destruct Hp as [Hle ->]; destruct (m_bad y); lia.
+    destruct (m_kind y); try discriminate; destruct Hp as [Hle ->]; apply ngood_mono; exact Hle.
   - exact Hreq.
   - exact Hdis.
   - (* complete *)
@@ -89,7 +89,7 @@ Proof.
     unfold is_apply_kind, is_map in Hk. unfold expected_created.
     destruct (m_kind y); try discriminate; destruct Hp as [Hle ->];
       (destruct Hq as [Hq|[Hq|Hq]]; [congruence|congruence|]);
-      destruct (m_bad y); auto.
+      rewrite Hq; reflexivity.
   - (* no exception *)
     intros m y e Hy Hf. pose proof (Hfin m y Hy) as Hq. unfold req_final_ok in Hq.
     rewrite Hf in Hq. exact Hq.
@@ -188,7 +188,7 @@ Qed.
     ([MWaitMap], pending); task 0 ends and wakes it (future [FOk], pc still [MWaitMap]); task 1
     ends before the consumer has run: [map_release] increments the free count to 1. *)
 Definition cexm_cfg : config :=
-  {| cf_size := Inf; cf_kind := KTask; cf_bad := false; cf_w := default_w;
+  {| cf_size := Inf; cf_kind := KTask; cf_bad := []; cf_w := default_w;
      cf_ecb := CbNone; cf_ccb := CbNone |}.
 
 Definition cexm_el : elem := {| e_bad := false; e_w := default_w |}.
